@@ -5,7 +5,7 @@
    execution after every action; `no_err err_Cxx m` = the monitor reported no error of this property's class;
    `no_raise ls` = no request ended in an exception. *)
 From Coq Require Import ZArith List Bool.
-From CS Require Ops RevConv RevBridge4 RevolveRun Refuted DiskRun DiskBridge3 HRevRun HRevTop GenLang GenBasic GenLang2 GenTwo GenLang3 GenMulti GenLang4 GenConv GenLang5 GenMixed.
+From CS Require Ops RevConv RevBridge4 RevolveRun Refuted DiskRun DiskBridge3 HRevRun HRevTop GenLang GenBasic GenLang2 GenTwo GenLang3 GenMulti GenLang4 GenConv GenLang5 GenMixed SeqGenSpec HSeqGenSpec.
 From CS Require Import Actions NAdvance Multistage Exec Sched RunFacts Projections BasicInv MultistageRun AllocTotal TLBridge MixBridge.
 Import ListNotations.
 Open Scope Z_scope.
@@ -191,4 +191,69 @@ Theorem C04_mixed_source_is_model :
 Proof. exact (@GenMixed.mixed_from_start). Qed.
 Print Assumptions C04_mixed_source_is_model.
 End M_C04_mixed_source_is_model.
+
+(* THE SEQUENCE GENERATORS ARE THE SOURCE: SeqGenSpec.revolve_shape / disk_revolve_shape / periodic_shape are the Gallina functions harness/translate.py (SeqTr) renders from revolve(), disk_revolve() and periodic_disk_revolve() of hrevolve_sequences/ -- every sequence.insert(operation(..)) appends one operation, insert_sequence(f(..).shift(k)) a recursively built list, the loops become for_down / while_, reads of the tables tget / lget with IndexError; Gen/SeqGen.v re-translates the current source on every run and proves the result equal to these terms by conversion.  They are proved equal, for all arguments, to the extracted RevSeq.revolve / RevSeq.disk_revolve / the body of RevSeq.periodic_top, on which every theorem about the Revolve family is stated; this is the top-level call of the constructor (RevConv.sequence) read on the translated source.  Not translated: the tables (get_opt_0_table, get_opt_inf_table), mxrr_close_formula and the Sequence / Operation classes of basic_functions.py (their flattening, shift and remove_useless_wm are Ops.v) *)
+Module M_C04_revolve_sequence_is_source.
+Import SeqGenSpec.
+Theorem C04_revolve_sequence_is_source :
+  forall l cm uf ub : Z,
+         RevSeq.revolve_top l cm uf ub =
+         Actions.bind (RevSeq.get_opt_0_table l cm uf ub)
+           (fun t : list (list Z) => revolve_shape (Z.to_nat (2 * l + 4)) t uf l cm).
+Proof. exact (@SeqGenSpec.revolve_top_is_source). Qed.
+Print Assumptions C04_revolve_sequence_is_source.
+End M_C04_revolve_sequence_is_source.
+
+(* ... DiskRevolve *)
+Module M_C04_disk_revolve_sequence_is_source.
+Import SeqGenSpec.
+Theorem C04_disk_revolve_sequence_is_source :
+  forall l cm rd wd uf ub : Z,
+         RevSeq.disk_revolve_top l cm rd wd uf ub =
+         Actions.bind (RevSeq.get_opt_0_table l cm uf ub)
+           (fun t : list (list Z) =>
+            Actions.bind (RevSeq.get_opt_inf_table l cm uf ub rd wd t)
+              (fun ti : list Z => disk_revolve_shape (Z.to_nat (l + 2)) t ti uf rd wd l cm)).
+Proof. exact (@SeqGenSpec.disk_revolve_top_is_source). Qed.
+Print Assumptions C04_disk_revolve_sequence_is_source.
+End M_C04_disk_revolve_sequence_is_source.
+
+(* ... PeriodicDiskRevolve (the period is at least 1: PeriodGen.mxrr_pos) *)
+Module M_C04_periodic_sequence_is_source.
+Import SeqGenSpec.
+Theorem C04_periodic_sequence_is_source :
+  forall l cm rd wd uf ub : Z,
+         0 <= l ->
+         RevSeq.periodic_top l cm rd wd uf ub =
+         (let mx := RevSeq.mxrr cm uf rd wd in
+          Actions.bind (RevSeq.get_opt_0_table (Z.max mx mx + 1) cm uf ub)
+            (fun t : list (list Z) =>
+             Actions.bind (periodic_shape t uf mx l cm) (fun o : list Ops.op => Actions.Ok (o, mx)))).
+Proof. exact (@SeqGenSpec.periodic_top_is_source). Qed.
+Print Assumptions C04_periodic_sequence_is_source.
+End M_C04_periodic_sequence_is_source.
+
+(* ... HRevolve: hrevolve_aux / hrevolve_recurse (mutually recursive; costs integers or +infinity) rendered by the translator (Gen/HSeqGen.v), proved equal to HRevSeq.aux / HRevSeq.recurse for every chain length l >= 0, with the test `the sequence built so far ends in a Discard` read as is_discard (last_op ..) *)
+Module M_C04_hrevolve_sequence_is_source.
+Import HSeqGenSpec.
+Theorem C04_hrevolve_sequence_is_source :
+  forall l ram disk wd rd uf ub : Z,
+         0 <= l ->
+         HRevSeq.hrevolve l ram disk wd rd uf ub =
+         (let p :=
+            {|
+              HRevSeq.c0v := ram;
+              HRevSeq.c1v := disk;
+              HRevSeq.w0v := 0;
+              HRevSeq.w1v := wd;
+              HRevSeq.r0v := 0;
+              HRevSeq.r1v := rd;
+              HRevSeq.ufv := uf;
+              HRevSeq.ubv := ub
+            |} in
+          Actions.bind (HRevSeq.get_hopt_table l ram disk 0 wd 0 rd ub uf)
+            (fun T : HRevSeq.tabs => recurse_shape (Z.to_nat (4 * l + 8)) p T l 1 disk)).
+Proof. exact (@HSeqGenSpec.hrevolve_is_source). Qed.
+Print Assumptions C04_hrevolve_sequence_is_source.
+End M_C04_hrevolve_sequence_is_source.
 
